@@ -111,6 +111,28 @@ func (f *File) syncWithoutLocking() error {
 	}
 
 	if f.writeBuf != nil {
+		// The entry might have been removed or renamed since it was opened; writing it back would
+		// resurrect it below a missing parent or leave a record on the tape that the index ignores
+		existing, err := inventory.Stat(
+			f.metadata,
+
+			f.path,
+			false,
+
+			f.onHeader,
+		)
+		if err != nil {
+			if err == sql.ErrNoRows {
+				return os.ErrNotExist
+			}
+
+			return err
+		}
+
+		if existing.FileInfo().IsDir() {
+			return config.ErrIsDirectory
+		}
+
 		// Syncing must not move the cursor
 		cursor, err := f.writeBuf.Seek(0, io.SeekCurrent)
 		if err != nil {
